@@ -338,3 +338,115 @@ Theorem float_model_never_unreceive ops : Forall wf_op ops -> clocks_in_range op
 Proof.
   intros Hwf Hc. apply accepted_never_unreceive; [exact Hwf|]. exact (float_model_meets_spec ops Hwf Hc).
 Qed.
+
+(* ================= "marked received exactly if it arrived", output level =================
+   [snapshots] pairs every report's statuses with the recount of the arrivals that
+   precede it.  In an accepted list of reports an entry about (ssrc, k) says "received"
+   exactly if packet (ssrc, k) arrived before the report; and what has arrived stays
+   arrived.  Together: never reported lost after it arrived / after reported received. *)
+Fixpoint snapshots (os : ostreams) (ops : list c08op) (outs : list oreport) : list (ostreams * list status) :=
+  match ops with
+  | [] => []
+  | Add ts ssrc seq ecn :: tl => snapshots (os_add os ts ssrc seq ecn) tl outs
+  | _ :: tl =>
+      match outs with
+      | [] => []
+      | (_, blocks) :: otl => (os, decode os blocks) :: snapshots os tl otl
+      end
+  end.
+
+Lemma statuses_snapshots : forall ops os outs, statuses os ops outs = map snd (snapshots os ops outs).
+Proof.
+  induction ops as [|op tl IH]; intros os outs; [reflexivity|].
+  destruct op; cbn [statuses snapshots]; try apply IH;
+    (destruct outs as [|[mlen blocks] otl]; [reflexivity|cbn [map snd]; f_equal; apply IH]).
+Qed.
+
+Lemma walk_received_iff_arrived : forall ops os_s os_h outs,
+  Forall2 HR os_s os_h -> ksorted os_h -> Forall wf_op ops -> code_ok (spec_walk os_s ops outs) ->
+  forall i os_i st_i, nth_error (snapshots os_h ops outs) i = Some (os_i, st_i) ->
+  forall ssrc k b, In (ssrc, k, b) st_i -> (b = true <-> arrived os_i ssrc k).
+Proof.
+  induction ops as [|op tl IH]; intros os_s os_h outs HH Hs Hwf Hc i os_i st_i Hn ssrc k b Hin.
+  - destruct i; discriminate.
+  - inversion Hwf as [|? ? Hop Htl]; subst.
+    assert (Hrep : forall now B blocks otl c os',
+              os_report os_s now B blocks = (c, os') -> code_ok c -> code_ok (spec_walk os' tl otl) ->
+              nth_error ((os_h, decode os_h blocks) :: snapshots os_h tl otl) i = Some (os_i, st_i) ->
+              (b = true <-> arrived os_i ssrc k)).
+    { intros now B blocks otl c os' Eo Hc1 Hc2 Hn'. destruct i as [|i]; cbn [nth_error] in Hn'.
+      - inversion Hn'; subst os_i st_i.
+        destruct (report_facts now B os_s os_h HH blocks c os' Eo Hc1 _ _ _ Hin) as (o & Hin' & Hb).
+        split.
+        + intros ->. exists o. split; [exact Hin'|apply Hb; reflexivity].
+        + intros (o' & Hin'' & Hk). rewrite (ksorted_unique os_h Hs ssrc o' o Hin'' Hin') in Hk.
+          apply Hb. exact Hk.
+      - apply (IH os' os_h otl) with (i := i) (st_i := st_i); auto. eapply os_report_HR; eauto. }
+    destruct op as [ts s seq ecn|now maxSize|now budget]; cbn [snapshots spec_walk] in *.
+    + destruct Hop as (_ & He).
+      apply (IH (os_add os_s ts s seq ecn) (os_add os_h ts s seq ecn) outs) with (i := i) (st_i := st_i); auto.
+      * apply os_add_HR; assumption.
+      * apply os_add_ksorted; exact Hs.
+    + destruct outs as [|[mlen blocks] otl]; [destruct i; discriminate|].
+      pose proof (spec_walk_build_inv os_s now maxSize tl mlen blocks otl Hc) as Hv.
+      destruct (os_report os_s now (fair_share maxSize (Z.of_nat (length os_s))) blocks) as [c os'] eqn:Eo.
+      destruct Hv as (Hc1 & Hc2). eapply Hrep; eauto.
+    + destruct outs as [|[mlen blocks] otl]; [destruct i; discriminate|].
+      destruct (os_report os_s now budget blocks) as [c os'] eqn:Eo.
+      apply defer7_ok_inv in Hc. destruct Hc as (Hc1 & Hc2). eapply Hrep; eauto.
+Qed.
+
+Theorem accepted_received_iff_arrived ops outs : Forall wf_op ops -> code_ok (spec_walk [] ops outs) ->
+  forall i os_i st_i, nth_error (snapshots [] ops outs) i = Some (os_i, st_i) ->
+  forall ssrc k b, In (ssrc, k, b) st_i -> (b = true <-> arrived os_i ssrc k).
+Proof. intros Hwf Hc. exact (walk_received_iff_arrived ops [] [] outs (Forall2_nil _) I Hwf Hc). Qed.
+
+(* what has arrived stays arrived: the recount of a later report contains that of an earlier one *)
+Lemma walk_arrived_monotone : forall ops os outs, Forall2 HR os os -> Forall wf_op ops ->
+  forall ssrc k, arrived os ssrc k ->
+  forall j os_j st_j, nth_error (snapshots os ops outs) j = Some (os_j, st_j) -> arrived os_j ssrc k.
+Proof.
+  induction ops as [|op tl IH]; intros os outs HH Hwf ssrc k Ha j os_j st_j Hn.
+  - destruct j; discriminate.
+  - inversion Hwf as [|? ? Hop Htl]; subst.
+    destruct op as [ts s seq ecn|now maxSize|now budget]; cbn [snapshots] in Hn.
+    + destruct Hop as (_ & He). eapply (IH (os_add os ts s seq ecn)); eauto.
+      * apply os_add_HR; assumption.
+      * eapply arrived_add; eauto.
+    + destruct outs as [|[mlen blocks] otl]; [destruct j; discriminate|].
+      destruct j as [|j]; cbn [nth_error] in Hn; [inversion Hn; subst; exact Ha|]. eapply IH; eauto.
+    + destruct outs as [|[mlen blocks] otl]; [destruct j; discriminate|].
+      destruct j as [|j]; cbn [nth_error] in Hn; [inversion Hn; subst; exact Ha|]. eapply IH; eauto.
+Qed.
+
+Theorem arrived_monotone : forall ops os outs, Forall2 HR os os -> Forall wf_op ops ->
+  forall i j os_i st_i os_j st_j, (i <= j)%nat ->
+  nth_error (snapshots os ops outs) i = Some (os_i, st_i) ->
+  nth_error (snapshots os ops outs) j = Some (os_j, st_j) ->
+  forall ssrc k, arrived os_i ssrc k -> arrived os_j ssrc k.
+Proof.
+  induction ops as [|op tl IH]; intros os outs HH Hwf i j os_i st_i os_j st_j Hij Hi Hj ssrc k Ha.
+  - destruct i; discriminate.
+  - inversion Hwf as [|? ? Hop Htl]; subst.
+    assert (Hrep : forall blocks otl,
+              nth_error ((os, decode os blocks) :: snapshots os tl otl) i = Some (os_i, st_i) ->
+              nth_error ((os, decode os blocks) :: snapshots os tl otl) j = Some (os_j, st_j) ->
+              arrived os_j ssrc k).
+    { intros blocks otl Hi' Hj'. destruct i as [|i]; cbn [nth_error] in Hi'.
+      - inversion Hi'; subst os_i st_i. destruct j as [|j]; cbn [nth_error] in Hj'.
+        + inversion Hj'; subst; exact Ha.
+        + eapply (walk_arrived_monotone tl os otl); eauto.
+      - destruct j as [|j]; [lia|]. cbn [nth_error] in Hj'.
+        eapply (IH os otl HH Htl i j); eauto. lia. }
+    destruct op as [ts s seq ecn|now maxSize|now budget]; cbn [snapshots] in Hi, Hj.
+    + destruct Hop as (_ & He). eapply (IH (os_add os ts s seq ecn) outs); eauto. apply os_add_HR; assumption.
+    + destruct outs as [|[mlen blocks] otl]; [destruct i; discriminate|]. eapply Hrep; eauto.
+    + destruct outs as [|[mlen blocks] otl]; [destruct i; discriminate|]. eapply Hrep; eauto.
+Qed.
+
+Theorem arrived_monotone_from_start ops outs : Forall wf_op ops ->
+  forall i j os_i st_i os_j st_j, (i <= j)%nat ->
+  nth_error (snapshots [] ops outs) i = Some (os_i, st_i) ->
+  nth_error (snapshots [] ops outs) j = Some (os_j, st_j) ->
+  forall ssrc k, arrived os_i ssrc k -> arrived os_j ssrc k.
+Proof. intros Hwf. exact (arrived_monotone ops [] outs (Forall2_nil _) Hwf). Qed.
